@@ -1184,6 +1184,39 @@ func runNoHint() {
 		})
 	chk.Sample("nohint", rtCase{Sub: "nohint", Text: fmt.Sprintf("%+q", "ｱｶa"), TextHex: hx("ｱｶa")})
 
+	// COUNTS: the guess tallies two-, three- and four-byte characters; texts with n non-ASCII
+	// characters for every n = 1..64 and around 128, 256, 512, 768, 1024, 1280 (one fill character
+	// of each length class, a mix of the three, bare and inside ASCII text), as far as a symbol holds
+	var counted []string
+	fills := []string{"\u00e9", "\u20ac", "\U0001F600"}
+	var ns []int
+	for n := 1; n <= 64; n++ {
+		ns = append(ns, n)
+	}
+	for _, c := range []int{128, 256, 512, 768, 1024, 1280} {
+		ns = append(ns, c-2, c-1, c, c+1, c+2)
+	}
+	for _, n := range ns {
+		for fi, f := range fills {
+			if n*len(f) > 2900 {
+				continue
+			}
+			counted = append(counted, strings.Repeat(f, n))
+			if n*len(f) < 2800 && n >= 120 {
+				counted = append(counted, "ascii text "+strings.Repeat(f, n)+" end", strings.Repeat(f, n/2)+" middle "+strings.Repeat(f, n-n/2))
+			}
+			_ = fi
+		}
+		// a mix: n characters in total, a third of each class
+		if n >= 3 && n*3 < 2900 {
+			a, b := n/3, n/3
+			counted = append(counted, strings.Repeat(fills[0], a)+strings.Repeat(fills[1], b)+strings.Repeat(fills[2], n-a-b))
+		}
+	}
+	chk.Range(fmt.Sprintf("(4') no hint, character COUNTS: n non-ASCII characters for n = 1..64 and n within 2 of 128, 256, 512, 768, 1024, 1280 x fill {2-byte, 3-byte, 4-byte, mixed}, bare and inside ASCII text: write -> read == text [%d texts]", len(counted)), len(counted),
+		func(i int) string { return fmt.Sprintf("%d bytes, %d runes", len(counted[i]), utf8.RuneCountInString(counted[i])) },
+		func(l *mc.Local, i int) { noHintOne(l, counted[i]) })
+
 	// every code point: the guess of the encoding of an undesignated byte segment looks at byte
 	// patterns, and whole blocks of the code space share one pattern (e.g. U+0800..U+0FFF: lead byte
 	// E0, second byte A0..BF) that no character of the small alphabet above has. Every code point of
